@@ -1,4 +1,5 @@
 import SieveModel.Model.Client
+import SieveModel.Lemmas.AuthWrites
 import SieveModel.Lemmas.Base64
 import SieveModel.Generated.MsConsts
 /-! # C16 — SASL mechanism selection and payloads -/
@@ -158,5 +159,28 @@ theorem oauthbearer_message (login token : Bytes) :
       = some (sb "n,a=" ++ saslName login ++ [44, 1] ++ sb "auth=Bearer " ++ token ++ [1, 1]) := by
   unfold oauthPayload
   exact Base64.decode_encode _
+
+/-! ## on the wire: one mechanism, once -/
+
+open Client in
+/-- **the credentials go out once, by the one mechanism selected**: `__authenticate` writes nothing when no SASL
+    capability is known or no mechanism is selected, and otherwise exactly the lines of the selected mechanism's
+    exchange, on the current channel — whatever the server answers (a refusal is not followed by a second attempt) -/
+theorem authenticate_writes_one_mechanism_once (c : Client) (login password authz : Bytes) (authmech : Option Bytes)
+    (hc : c.connected = true) :
+    (authenticate c login password authz authmech).2.writes =
+      c.writes ++ (match capGet c (sb "SASL") with
+        | none => []
+        | some v =>
+          match selectMech authmech (splitWs (v.getD [])) with
+          | none => []
+          | some m => (authLines m login password authz).map (fun b => (c.tls, b))) :=
+  authenticate_writes c login password authz authmech hc
+
+open Client in
+/-- … and those lines hold exactly one AUTHENTICATE command (LOGIN's two further lines are quoted strings) -/
+theorem one_authenticate_command_per_exchange (mech login password authz : Bytes) :
+    ((authLines mech login password authz).filter isAuthCmd).length = 1 :=
+  authLines_one_command mech login password authz
 
 end C16
